@@ -486,19 +486,15 @@ class Executor:
         return Obj(f"({vkey(l)}{_opsym(op)}{vkey(r)})")
 
     def e_BoolOp(self, node, env):
-        if isinstance(node.op, ast.And):
-            last = Const(True)
-            for v in node.values:
-                last = self.ev(v, env)
-                if not self.truth(last, v):
-                    return last if not isinstance(last, Obj) else Const(False)
-            return last if not isinstance(last, Obj) else Const(True)
-        last = Const(False)
-        for v in node.values:
-            last = self.ev(v, env)
-            if self.truth(last, v):
-                return last  # `a or b` IS a when a is truthy (the operand, not a boolean)
-        return last if not isinstance(last, Obj) else Const(False)
+        # Python's value semantics:  a and b  is a when a is falsy, else b;  a or b  is a when a is truthy, else b.
+        # The last operand is returned as it is (it is not tested); in a condition the caller tests the result.
+        is_and = isinstance(node.op, ast.And)
+        for v in node.values[:-1]:
+            val = self.ev(v, env)
+            t = self.truth(val, v)
+            if t != is_and:
+                return val
+        return self.ev(node.values[-1], env)
 
     def e_IfExp(self, node, env):
         if self.truth(self.ev(node.test, env), node.test):
